@@ -36,7 +36,7 @@ class FnLowerS(FnLower):
             for v in ks:
                 if v['kind'] == 'VarDecl':
                     self.vardecl(v)
-                elif v['kind'] in ('TypeAliasDecl', 'TypedefDecl', 'StaticAssertDecl', 'UsingDecl'):
+                elif v['kind'] in ('TypeAliasDecl', 'TypedefDecl', 'StaticAssertDecl', 'UsingDecl', 'UsingDirectiveDecl'):
                     pass
                 else:
                     raise Unsupported('DeclStmt of ' + v['kind'])
@@ -185,6 +185,7 @@ class FnLowerS(FnLower):
         self.pop_scope()
         self.ind -= 1
         self.emit('}')
+        self.emit('/*@AFTERLOOP %s.%d@*/' % (self.f.cname, lid))
         self.dead = False
 
     def cond_break(self, cond):
